@@ -55,6 +55,16 @@ fn image(c: &Case) -> Vec<u8> {
             } else {
                 put64(&mut body, at + 16, p);
             }
+            // in three of four tables every header's size field is the true size of
+            // the names (so that every name lies inside "its" string table)
+            if c.key & 0xC0 != 0xC0 {
+                let n = mb2_model::elfnames::names().len() as u64;
+                if es == 40 {
+                    put32(&mut body, at + 20, n as u32);
+                } else {
+                    put64(&mut body, at + 32, n);
+                }
+            }
             if c.small_links {
                 let l = ((c.key >> 8) as usize + e) % (fit + 1);
                 put32(&mut body, at + if es == 40 { 24 } else { 40 }, l as u32);
@@ -252,7 +262,11 @@ fn eval_mode(c: &Case, obs: &mut Obs, shared: Option<&mut Aligned>) -> Result<()
                 return Err(format!("{ctx}: {k}: expected {}, got {:?}", v.render(), t.get(&k).map(|x| x.render())));
             }
         }
-        if with_names {
+        // (where the string table's own size field says the name is not inside the
+        // table, a bounded lookup may refuse or cut it: outcome left open)
+        let st_size = if with_names { decode_elf_entry(&img, 20 + shndx as usize * es as usize, es as usize).size } else { 0 };
+        let name_len = mb2_model::elfnames::names().get(ent.name_index as usize..).and_then(|r| r.iter().position(|x| *x == 0)).unwrap_or(0) as u64;
+        if with_names && ent.name_index as u64 + name_len < st_size {
             let k = format!("{q}.name");
             let v = model_name(ent.name_index);
             if tmap.get(k.as_str()).copied() != Some(&v) {
